@@ -2062,3 +2062,74 @@ func ruleEmbeddedNil(prog *Program, rep *Report) {
 		rep.Errorf("K-embednil examined %d field-plan loops (floor 5): anchors did not resolve", loops)
 	}
 }
+
+// ---------------------------------------------------------------- B-slicebound
+
+// ruleSliceBound: a slice selects start (inclusive) to end (exclusive). Inside a
+// `case Slice:` clause of package jp, a loop over the selected indexes that
+// runs while `i <= end` (or `end <= i` for a negative step) treats the end bound
+// as inclusive.
+func ruleSliceBound(prog *Program, rep *Report) {
+	rep.Rules = append(rep.Rules, "B-slicebound: inside every `case Slice:` clause of package jp the loops over the selected indexes exclude the end bound (`i < end`, `end < i`), as Expr.Get does: the mutators touch exactly the locations Get selects")
+	pk := prog.Pkg("jp")
+	if pk == nil {
+		rep.Errorf("B-slicebound: package jp not loaded")
+		return
+	}
+	cnt := 0
+	for _, f := range pk.Syntax {
+		ast.Inspect(f, func(k ast.Node) bool {
+			cc, ok := k.(*ast.CaseClause)
+			if !ok || len(cc.List) != 1 || types.ExprString(cc.List[0]) != "Slice" {
+				return true
+			}
+			cont := ""
+			var walk func(n ast.Node)
+			walk = func(n ast.Node) {
+				ast.Inspect(n, func(q ast.Node) bool {
+					switch x := q.(type) {
+					case *ast.CaseClause:
+						if x != cc && len(x.List) > 0 {
+							old := cont
+							cont = types.ExprString(x.List[0])
+							for _, st := range x.Body {
+								walk(st)
+							}
+							cont = old
+							return false
+						}
+					case *ast.ForStmt:
+						if x.Cond == nil {
+							return true
+						}
+						c := strings.ReplaceAll(types.ExprString(x.Cond), " ", "")
+						switch c {
+						case "i<end", "end<i":
+							cnt++
+						case "i<=end", "end<=i":
+							cnt++
+							dir := "+"
+							if c == "end<=i" {
+								dir = "-"
+							}
+							if cont == "" {
+								cont = "reflect"
+							}
+							rep.Violate(Finding{Rule: "B-slicebound", Key: fmt.Sprintf("jp.%s:slice-end-inclusive:%s:%s", enclosingFuncName(f, x.Pos()), cont, dir), Pos: prog.Pos(x.Pos()),
+								Msg: fmt.Sprintf("%s walks a slice of a %s while %s: the element at the end bound is included, Expr.Get excludes it ($[1:3] selects 1 and 2, Remove and Modify also change 3)", enclosingFuncName(f, x.Pos()), cont, types.ExprString(x.Cond))})
+						}
+					}
+					return true
+				})
+			}
+			for _, st := range cc.Body {
+				walk(st)
+			}
+			return true
+		})
+	}
+	rep.Eval(cnt)
+	if cnt < 12 {
+		rep.Errorf("B-slicebound examined %d slice loops (floor 12): anchors did not resolve", cnt)
+	}
+}
